@@ -218,7 +218,11 @@ fn resolve_symbols_and_select_archive_entries<'data, P: Platform>(
 
     symbol_db.restore_definitions(symbol_definitions);
 
-    if let Some(e) = outputs.errors.pop() {
+    // Errors were pushed in whatever order the worker threads happened to run. Sort them so that the
+    // error we report doesn't depend on thread scheduling.
+    let mut errors: Vec<Error> = std::iter::from_fn(|| outputs.errors.pop()).collect();
+    errors.sort_by_cached_key(Error::to_string);
+    if let Some(e) = errors.into_iter().next() {
         return Err(e);
     }
 
@@ -536,7 +540,7 @@ impl<'scope, 'data, P: Platform> ResolutionResources<'data, 'scope, P> {
         if let Err(error) = result {
             #[cfg(feature = "verif")]
             crate::verif_api::errlog::arrive("resolution", &error);
-            let _ = self.outputs.errors.push(error);
+            self.outputs.errors.push(error);
         }
     }
 }
@@ -779,7 +783,7 @@ struct Outputs<'data, P: Platform> {
     loaded_lto_objects: ArrayQueue<ResolvedLtoInput>,
 
     /// Any errors that we encountered.
-    errors: ArrayQueue<Error>,
+    errors: SegQueue<Error>,
 
     undefined_symbols: SegQueue<UndefinedSymbol<'data>>,
 }
@@ -791,7 +795,7 @@ impl<'data, P: Platform> Outputs<'data, P> {
             loaded: ArrayQueue::new(num_regular_objects.max(1)),
             #[cfg(feature = "plugins")]
             loaded_lto_objects: ArrayQueue::new(num_lto_objects.max(1)),
-            errors: ArrayQueue::new(1),
+            errors: SegQueue::new(),
             undefined_symbols: SegQueue::new(),
         }
     }
